@@ -55,7 +55,7 @@ PROPS = {
         ],
     },
     "C09": {
-        "units": ["nonce", "verify", "prove", "lemmas"],
+        "units": ["nonce", "verify", "prove", "lemmas", "ctors"],
         "design_ref": "DESIGN.md section 7, C09",
         "technique": "contract-based deductive verification (Verus): byte-level KDF contract for nonce(), per-component mask formula as loop invariants of the real verify(), position-wise postcondition",
         "claim": "nonce() is proved to be the documented keyed-Blake2b KDF (byte layout of key, label as persona, index encoding) and total on the verifier's arguments; "
@@ -302,3 +302,5 @@ PROPS["C06"]["claim"] += " The `prove` entry point (feature rand) is under contr
 PROPS["C08"]["claim"] += ' NullRng, the generator handed to merlin when the weight RNG is built, is under contract (unit nullrng): fill_bytes / try_fill_bytes overwrite the whole buffer with zeros, so the weights are a function of the transcripts only.'
 
 PROPS["C11"]["claim"] += ' BulletproofGens::clone (a hand-written Clone impl) is proved to return the same capacities, tables with the same content and the same precomputation.'
+
+PROPS["C09"]["claim"] += " The mask type itself is part of the check: ExtendedMask::assign stores the recovered components unchanged and ExtendedMask::blindings returns them for every non-empty mask (unit ctors)."
